@@ -78,11 +78,12 @@ func (ev *evalCtx) lookupName(n string) (Val, bool) {
 			}
 		}
 	}
-	if v, ok := fr.names[n]; ok {
-		return v, true
-	}
+	// a variable that lives in a cell (captured or address-taken) is read from the cell
 	if a, ok := fr.names["&"+n]; ok {
 		return ev.loadPtr(a), true
+	}
+	if v, ok := fr.names[n]; ok {
+		return v, true
 	}
 	// named results
 	return Val{}, false
